@@ -4,6 +4,7 @@ import Mpir.Model.Kernels
 import Mathlib.Tactic.Ring
 import Mathlib.Tactic.Linarith
 import Mathlib.Tactic.IntervalCases
+import Mathlib.Tactic.LinearCombination
 namespace Mpir
 
 
@@ -44,4 +45,189 @@ theorem addNC_val : ∀ (u v : List Nat) (cy : Nat), Limbs u → Limbs v → u.l
     generalize ((u + v) % B + cy) % B = rl at *
     generalize (addNC us vs c) = res at *
     nlinarith [ihv, e]
+
+/-! ### sub_n -/
+
+/-- one limb of sub_n: the C's borrow tests compute the true borrow -/
+theorem sub_limb (u v cy sl rl c : Nat) (hu : u < B) (hv : v < B) (hc : cy ≤ 1)
+    (hsl : sl = (u + B - v) % B) (hrl : rl = (sl + B - cy) % B)
+    (hcd : c = boolToNat (decide (sl > u)) ||| boolToNat (decide (rl > sl))) :
+    rl + v + cy = u + B * c ∧ c ≤ 1 ∧ rl < B := by
+  rw [lor_bool] at hcd
+  simp only [B_eq] at *
+  split at hcd <;> omega
+
+theorem subNC_val : ∀ (u v : List Nat) (cy : Nat), Limbs u → Limbs v → u.length = v.length → cy ≤ 1 →
+    val (subNC u v cy).1 + val v + cy = val u + B ^ u.length * (subNC u v cy).2 ∧
+    (subNC u v cy).2 ≤ 1 ∧ Limbs (subNC u v cy).1 ∧ (subNC u v cy).1.length = u.length
+  | [], [], cy, _, _, _, hc => by simp [subNC, hc, Limbs_nil]
+  | [], _ :: _, _, _, _, h, _ => by simp at h
+  | _ :: _, [], _, _, _, h, _ => by simp at h
+  | u :: us, v :: vs, cy, hu, hv, hl, hc => by
+    have ⟨hu0, hus⟩ := Limbs_cons.mp hu
+    have ⟨hv0, hvs⟩ := Limbs_cons.mp hv
+    obtain ⟨sl, hsl⟩ : ∃ sl, sl = (u + B - v) % B := ⟨_, rfl⟩
+    obtain ⟨rl, hrl⟩ : ∃ rl, rl = (sl + B - cy) % B := ⟨_, rfl⟩
+    obtain ⟨c, hcd⟩ : ∃ c, c = boolToNat (decide (sl > u)) ||| boolToNat (decide (rl > sl)) := ⟨_, rfl⟩
+    have step : subNC (u :: us) (v :: vs) cy = (rl :: (subNC us vs c).1, (subNC us vs c).2) := by
+      rw [hcd, hrl, hsl]; simp only [subNC]
+    have ⟨e, c1, r1⟩ := sub_limb u v cy sl rl c hu0 hv0 hc hsl hrl hcd
+    obtain ⟨ihv, ihc, ihl, ihn⟩ := subNC_val us vs c hus hvs (by simpa using hl) c1
+    rw [step]
+    simp only [val_cons, List.length_cons, pow_succ]
+    refine ⟨?_, ihc, Limbs_cons.mpr ⟨r1, ihl⟩, by rw [ihn]⟩
+    generalize (subNC us vs c) = res at *
+    linear_combination e + B * ihv
+
+/-! ### add_1 / sub_1 / add / sub : carry propagation with early exit -/
+
+theorem incr_val : ∀ (u : List Nat), Limbs u →
+    val (incr u).1 + B ^ u.length * (incr u).2 = val u + 1 ∧
+    (incr u).2 ≤ 1 ∧ Limbs (incr u).1 ∧ (incr u).1.length = u.length
+  | [], _ => by simp [incr, Limbs_nil]
+  | x :: xs, h => by
+    have ⟨hx, hxs⟩ := Limbs_cons.mp h
+    obtain ⟨ihv, ihc, ihl, ihn⟩ := incr_val xs hxs
+    obtain ⟨r, hr⟩ : ∃ r, r = (x + 1) % B := ⟨_, rfl⟩
+    have step : incr (x :: xs) = if r < 1 then (r :: (incr xs).1, (incr xs).2) else (r :: xs, 0) := by
+      rw [hr]; simp only [incr]
+    rw [step]
+    have hrB : r < B := hr ▸ Nat.mod_lt _ B_pos
+    split
+    · simp only [val_cons, List.length_cons, pow_succ]
+      refine ⟨?_, ihc, Limbs_cons.mpr ⟨hrB, ihl⟩, by rw [ihn]⟩
+      have e : r + B = x + 1 := by simp only [B_eq] at *; omega
+      generalize incr xs = res at *
+      linear_combination e + B * ihv
+    · simp only [val_cons, List.length_cons, pow_succ]
+      refine ⟨?_, by omega, Limbs_cons.mpr ⟨hrB, hxs⟩, trivial⟩
+      have e : r = x + 1 := by simp only [B_eq] at *; omega
+      linear_combination e
+
+theorem decr_val : ∀ (u : List Nat), Limbs u →
+    val (decr u).1 + 1 = val u + B ^ u.length * (decr u).2 ∧
+    (decr u).2 ≤ 1 ∧ Limbs (decr u).1 ∧ (decr u).1.length = u.length
+  | [], _ => by simp [decr, Limbs_nil]
+  | x :: xs, h => by
+    have ⟨hx, hxs⟩ := Limbs_cons.mp h
+    obtain ⟨ihv, ihc, ihl, ihn⟩ := decr_val xs hxs
+    obtain ⟨r, hr⟩ : ∃ r, r = (x + B - 1) % B := ⟨_, rfl⟩
+    have step : decr (x :: xs) = if x < 1 then (r :: (decr xs).1, (decr xs).2) else (r :: xs, 0) := by
+      rw [hr]; simp only [decr]
+    rw [step]
+    have hrB : r < B := hr ▸ Nat.mod_lt _ B_pos
+    split
+    · simp only [val_cons, List.length_cons, pow_succ]
+      refine ⟨?_, ihc, Limbs_cons.mpr ⟨hrB, ihl⟩, by rw [ihn]⟩
+      have e : r + 1 = x + B := by simp only [B_eq] at *; omega
+      generalize decr xs = res at *
+      linear_combination e + B * ihv
+    · simp only [val_cons, List.length_cons, pow_succ]
+      refine ⟨?_, by omega, Limbs_cons.mpr ⟨hrB, hxs⟩, trivial⟩
+      have e : r + 1 = x := by simp only [B_eq] at *; omega
+      linear_combination e
+
+theorem add_1_val' (x : Nat) (xs : List Nat) (v : Nat) (h : Limbs (x :: xs)) (hv : v < B) :
+    val (add_1 (x :: xs) v).1 + B ^ (xs.length + 1) * (add_1 (x :: xs) v).2 = val (x :: xs) + v ∧
+    (add_1 (x :: xs) v).2 ≤ 1 ∧ Limbs (add_1 (x :: xs) v).1 ∧
+    (add_1 (x :: xs) v).1.length = xs.length + 1 := by
+  have ⟨hx, hxs⟩ := Limbs_cons.mp h
+  obtain ⟨ihv, ihc, ihl, ihn⟩ := incr_val xs hxs
+  obtain ⟨r, hr⟩ : ∃ r, r = (x + v) % B := ⟨_, rfl⟩
+  have step : add_1 (x :: xs) v = if r < v then (r :: (incr xs).1, (incr xs).2) else (r :: xs, 0) := by
+    rw [hr]; simp only [add_1]
+  rw [step]
+  have hrB : r < B := hr ▸ Nat.mod_lt _ B_pos
+  split
+  · simp only [val_cons, List.length_cons, pow_succ]
+    refine ⟨?_, ihc, Limbs_cons.mpr ⟨hrB, ihl⟩, by rw [ihn]⟩
+    have e : r + B = x + v := by simp only [B_eq] at *; omega
+    generalize incr xs = res at *
+    linear_combination e + B * ihv
+  · simp only [val_cons, List.length_cons, pow_succ]
+    refine ⟨?_, by omega, Limbs_cons.mpr ⟨hrB, hxs⟩, trivial⟩
+    have e : r = x + v := by simp only [B_eq] at *; omega
+    linear_combination e
+
+theorem sub_1_val' (x : Nat) (xs : List Nat) (v : Nat) (h : Limbs (x :: xs)) (hv : v < B) :
+    val (sub_1 (x :: xs) v).1 + v = val (x :: xs) + B ^ (xs.length + 1) * (sub_1 (x :: xs) v).2 ∧
+    (sub_1 (x :: xs) v).2 ≤ 1 ∧ Limbs (sub_1 (x :: xs) v).1 ∧
+    (sub_1 (x :: xs) v).1.length = xs.length + 1 := by
+  have ⟨hx, hxs⟩ := Limbs_cons.mp h
+  obtain ⟨ihv, ihc, ihl, ihn⟩ := decr_val xs hxs
+  obtain ⟨r, hr⟩ : ∃ r, r = (x + B - v) % B := ⟨_, rfl⟩
+  have step : sub_1 (x :: xs) v = if x < v then (r :: (decr xs).1, (decr xs).2) else (r :: xs, 0) := by
+    rw [hr]; simp only [sub_1]
+  rw [step]
+  have hrB : r < B := hr ▸ Nat.mod_lt _ B_pos
+  split
+  · simp only [val_cons, List.length_cons, pow_succ]
+    refine ⟨?_, ihc, Limbs_cons.mpr ⟨hrB, ihl⟩, by rw [ihn]⟩
+    have e : r + v = x + B := by simp only [B_eq] at *; omega
+    generalize decr xs = res at *
+    linear_combination e + B * ihv
+  · simp only [val_cons, List.length_cons, pow_succ]
+    refine ⟨?_, by omega, Limbs_cons.mpr ⟨hrB, hxs⟩, trivial⟩
+    have e : r + v = x := by simp only [B_eq] at *; omega
+    linear_combination e
+
+theorem add_val' (x y : List Nat) (hx : Limbs x) (hy : Limbs y) (hl : y.length ≤ x.length) :
+    val (add x y).1 + B ^ x.length * (add x y).2 = val x + val y ∧
+    (add x y).2 ≤ 1 ∧ Limbs (add x y).1 ∧ (add x y).1.length = x.length := by
+  have htl : (x.take y.length).length = y.length := by simp [hl]
+  have hdl : (x.drop y.length).length = x.length - y.length := by simp
+  obtain ⟨av, ac, al, an⟩ := addNC_val (x.take y.length) y 0 (Limbs_take hx _) hy htl (by omega)
+  obtain ⟨iv, ic, il, iN⟩ := incr_val (x.drop y.length) (Limbs_drop hx _)
+  have hsplit := val_take_drop x y.length hl
+  have hpow : B ^ x.length = B ^ y.length * B ^ (x.length - y.length) := by
+    rw [← pow_add]; congr 1; omega
+  rw [htl] at av an
+  rw [hdl] at iv iN
+  by_cases hc : (addNC (x.take y.length) y 0).2 = 0
+  · have e : add x y = ((addNC (x.take y.length) y 0).1 ++ x.drop y.length, 0) := by
+      simp [add, add_n, hc]
+    rw [e]
+    simp only [val_append, List.length_append, Limbs_append, an, hdl]
+    refine ⟨?_, by omega, ⟨al, Limbs_drop hx _⟩, by omega⟩
+    rw [hc] at av
+    linear_combination av - hsplit
+  · have e : add x y = ((addNC (x.take y.length) y 0).1 ++ (incr (x.drop y.length)).1,
+        (incr (x.drop y.length)).2) := by
+      simp [add, add_n, hc]
+    have hc1 : (addNC (x.take y.length) y 0).2 = 1 := by omega
+    rw [e]
+    simp only [val_append, List.length_append, Limbs_append, an, iN]
+    refine ⟨?_, ic, ⟨al, il⟩, by omega⟩
+    rw [hc1] at av
+    linear_combination av + B ^ y.length * iv - hsplit + (incr (x.drop y.length)).2 * hpow
+theorem sub_val' (x y : List Nat) (hx : Limbs x) (hy : Limbs y) (hl : y.length ≤ x.length) :
+    val (sub x y).1 + val y = val x + B ^ x.length * (sub x y).2 ∧
+    (sub x y).2 ≤ 1 ∧ Limbs (sub x y).1 ∧ (sub x y).1.length = x.length := by
+  have htl : (x.take y.length).length = y.length := by simp [hl]
+  have hdl : (x.drop y.length).length = x.length - y.length := by simp
+  obtain ⟨av, ac, al, an⟩ := subNC_val (x.take y.length) y 0 (Limbs_take hx _) hy htl (by omega)
+  obtain ⟨iv, ic, il, iN⟩ := decr_val (x.drop y.length) (Limbs_drop hx _)
+  have hsplit := val_take_drop x y.length hl
+  have hpow : B ^ x.length = B ^ y.length * B ^ (x.length - y.length) := by
+    rw [← pow_add]; congr 1; omega
+  rw [htl] at av an
+  rw [hdl] at iv iN
+  by_cases hc : (subNC (x.take y.length) y 0).2 = 0
+  · have e : sub x y = ((subNC (x.take y.length) y 0).1 ++ x.drop y.length, 0) := by
+      simp [sub, sub_n, hc]
+    rw [e]
+    simp only [val_append, List.length_append, Limbs_append, an, hdl]
+    refine ⟨?_, by omega, ⟨al, Limbs_drop hx _⟩, by omega⟩
+    rw [hc] at av
+    linear_combination av - hsplit
+  · have e : sub x y = ((subNC (x.take y.length) y 0).1 ++ (decr (x.drop y.length)).1,
+        (decr (x.drop y.length)).2) := by
+      simp [sub, sub_n, hc]
+    have hc1 : (subNC (x.take y.length) y 0).2 = 1 := by omega
+    rw [e]
+    simp only [val_append, List.length_append, Limbs_append, an, iN]
+    refine ⟨?_, ic, ⟨al, il⟩, by omega⟩
+    rw [hc1] at av
+    linear_combination av + B ^ y.length * iv - hsplit - (decr (x.drop y.length)).2 * hpow
+
 end Mpir
